@@ -43,7 +43,7 @@ CHECKS["C06"] = dict(
     engine="XH+RZ3",
     technique="symbolic execution (CrossHair + z3) of the real licence-inventory pipeline against the statement's set algebra; z3 regex equivalence for the LicenseRef- pattern",
     text="CrossHair explores every path of the real pipeline LICENSES listing -> Project._find_licenses -> FileReport.generate -> ProjectReport.generate -> used/unused for 14 ways of use (alone, '+', AND, OR, WITH, parentheses, LicenseRef, malformed LicenseRef, unknown, wrong case, a repeated identifier, none) in one or two files x 7 provision forms (absent, ID.txt, ID.md, ID, sub/ID.txt, ID+.txt, with .license) of three identifiers at a time, comparing missing/unused/bad/deprecated/extension-less/used with a model of the statement; z3 decides L(_LICENSEREF_PATTERN) = LicenseRef-[A-Za-z0-9.-]+ for identifiers of any length. Counterexamples are replayed on a real temporary tree through Project.from_directory.",
-    note="Stubs: reuse_info_of (returns the chosen expression), directory listing, deterministic pseudo-checksum; native pathlib / licence parsing on concrete values. Known findings: used-but-unprovided LicenseRef- reported as bad; LicenseRef pattern accepts a trailing LF. One data pass over the bundled SPDX list is reported separately and is not a solver obligation.",
+    note="Stubs: reuse_info_of (returns the chosen expression), directory listing, deterministic pseudo-checksum; native pathlib / licence parsing on concrete values. Known finding: used-but-unprovided LicenseRef- reported as bad. The LicenseRef pattern accepting a trailing LF, found by this check, is repaired in /repo (fix: 4db907f). One data pass over the bundled SPDX list is reported separately and is not a solver obligation.",
 )
 CHECKS["C01"] = dict(
     engine="XH",
